@@ -58,3 +58,17 @@ meta("C09",
      budget={"quick": 25, "thorough": 400},
      min_counts={"quick": {"invariant_evaluations": 1000, "failing_calls": 300, "op:rename": 50}},
      set_samples=["clash_shapes"])
+
+meta("C04",
+     rule="(1) exhaustive enumeration of all strings of length <=3 (quick) / <=4 (thorough) over 7-17-symbol alphabets per datatype (7 tag datatypes + 18 positional datatypes) embedded in an otherwise valid carrier line, judged at vlevel 1 and 3 (distinct by construction); (2) generated valid lines/documents, their single-point mutants, cross-field documents (LN, path overlap count, beg<=end, $ position, undefined references, duplicate identifiers, predefined tag types, version mixing), rGFA documents; every case is classified VALID/INVALID/UNSPECIFIED by the independent recogniser and compared with construction + explicit validate(); non-trivial = classified VALID or INVALID (not UNSPECIFIED)",
+     budget={"quick": 40, "thorough": 600},
+     min_counts={"quick": {"strings_judged": 50000, "docs_judged": 500, "lines_judged": 300}},
+     exhaustive="strata (1) only: all strings up to the stated length over the per-datatype alphabets of vlib/gen/hostile.py",
+     set_samples=["dt_verdicts", "doc_reasons"])
+
+meta("C07",
+     rule="G4 hostile text (empty/blank lines, every record letter with 0..10 fields from a pool of boundary atoms, printable/non-printable/non-ASCII garbage, very long fields, deep JSON) and single-point mutants of generated valid lines/documents, x vlevel 0-3 x version {None,gfa1,gfa2} x dialect, through Line(), Gfa(str|list), from_file, add_line; then follow-up public calls (line/segment/try_get_*/rm/validate/str, get/set/validate_field/field_to_s/delete/set_datatype) with hostile names and values; bin/gfapy-validate on generated files; every call runs under a logical step budget (5e6 + 5000*bytes function entries + loop back-edges inside gfapy/); non-trivial = case that reached a raise site not seen before in its shard",
+     budget={"quick": 35, "thorough": 500},
+     min_counts={"quick": {"public_calls": 30000, "gfapy_errors": 5000, "cli_runs": 20}},
+     assumptions=["files are written as UTF-8 text; undecodable bytes and missing files are environment faults outside the claim",
+                  "termination is restated as bounded progress: no call may exceed the deterministic step budget; a wall-clock watchdog firing is inconclusive"])
